@@ -316,7 +316,7 @@ class Hist:
         pend_cat = None
         for line, conv in zip(self.script, self.plan):
             op = line.split()[0]
-            if op in ("file", "mkdir", "rm"):
+            if op in ("file", "mkdir", "rm", "cbreset", "cbrejectpath", "cbopenfd"):
                 continue
             ev = next(it, None)
             if ev is None:
